@@ -9,7 +9,6 @@ import (
 	"bytes"
 	"fmt"
 	"net/http"
-	"net/http/httptest"
 	"os"
 	"os/exec"
 	"sort"
@@ -130,7 +129,7 @@ func TestVerifN2HOpts(t *testing.T) {
 	}
 	hist := map[string]int{}
 	srvH := &vfOptSrv{status: 200}
-	srv := httptest.NewServer(srvH)
+	srv := vfHTTPServer(srvH)
 	defer srv.Close()
 	httpclient = &http.Client{Timeout: 5 * time.Second}
 	defCT := *contentType
